@@ -324,6 +324,17 @@ def gen_orm_spec(rng, cfg=None):
     return sp
 
 
+def gen_poly_spec(rng):
+    return {
+        "kind": "orm_poly",
+        "opt": rng.choice(["machines_crit", "machines_power", "with_expr", "both", "explicit_poly", "explicit_poly_expr", "none"]),
+        "mname": "m%d" % rng.randint(0, 2),
+        "n": rng.randint(1, 50),
+        "minid": rng.randint(0, 4),
+        "shared": [],
+    }
+
+
 def reroll_spec(sp, rng):
     """same structure, new bound values (IN lists may change length)"""
     import copy
@@ -365,7 +376,11 @@ def reroll_spec(sp, rng):
                 walk(x)
         elif isinstance(o, dict):
             for k, v in list(o.items()):
-                if k in ("limit", "offset", "crit", "extra", "ret_bind", "off") and isinstance(v, int):
+                if k in ("n", "minid") and isinstance(v, int):
+                    o[k] = rng.randint(1, 50) if k == "n" else rng.randint(0, 4)
+                elif k == "mname":
+                    o[k] = "m%d" % rng.randint(0, 2)
+                elif k in ("limit", "offset", "crit", "extra", "ret_bind", "off") and isinstance(v, int):
                     o[k] = newv(v)
                 elif k == "sval" and isinstance(v, str):
                     o[k] = newv(v)
@@ -416,6 +431,11 @@ class Fixture:
             sa.Column("tid", sa.Integer),
             sa.Column("v", sa.Integer),
         )
+        # joined-table inheritance (selectin polymorphic loading + loader options with literals)
+        self.emp = sa.Table("emp", self.md, sa.Column("id", sa.Integer, primary_key=True), sa.Column("type", sa.String(20)), sa.Column("name", sa.String(20)), sa.Column("level", sa.Integer))
+        self.eng = sa.Table("eng", self.md, sa.Column("id", sa.Integer, sa.ForeignKey("emp.id"), primary_key=True), sa.Column("lang", sa.String(20)))
+        self.mgr = sa.Table("mgr", self.md, sa.Column("id", sa.Integer, sa.ForeignKey("emp.id"), primary_key=True), sa.Column("budget", sa.Integer))
+        self.machine = sa.Table("machine", self.md, sa.Column("id", sa.Integer, primary_key=True), sa.Column("eng_id", sa.Integer), sa.Column("name", sa.String(20)), sa.Column("power", sa.Integer))
         # columns whose bind names need escaping (executemany / insertmanyvalues paths)
         self.wt = sa.Table(
             "wt",
@@ -457,8 +477,49 @@ class Fixture:
         self._mapped = (T, U)
         return self._mapped
 
+    def mapped_poly(self):
+        """Employee / Engineer(polymorphic_load=selectin) / Manager, Engineer.machines, Engineer.bonus"""
+        if getattr(self, "_poly", None):
+            return self._poly
+        from sqlalchemy import orm
+
+        reg = orm.registry()
+
+        class Employee:
+            pass
+
+        class Engineer(Employee):
+            pass
+
+        class Manager(Employee):
+            pass
+
+        class Machine:
+            pass
+
+        reg.map_imperatively(Machine, self.machine)
+        reg.map_imperatively(Employee, self.emp, polymorphic_on=self.emp.c.type, polymorphic_identity="employee")
+        reg.map_imperatively(
+            Engineer,
+            self.eng,
+            inherits=Employee,
+            polymorphic_identity="engineer",
+            polymorphic_load="selectin",
+            properties={
+                "machines": orm.relationship(Machine, primaryjoin=self.eng.c.id == orm.foreign(self.machine.c.eng_id), order_by=self.machine.c.id, viewonly=True),
+                "bonus": orm.query_expression(),
+            },
+        )
+        reg.map_imperatively(Manager, self.mgr, inherits=Employee, polymorphic_identity="manager", polymorphic_load="selectin")
+        self._poly = (Employee, Engineer, Manager, Machine)
+        return self._poly
+
     def populate(self, conn):
         self.md.create_all(conn)
+        conn.execute(self.emp.insert(), [{"id": i, "type": ["engineer", "manager", "engineer", "employee"][i % 4], "name": "e%d" % i, "level": 10 * i} for i in range(1, 9)])
+        conn.execute(self.eng.insert(), [{"id": i, "lang": "l%d" % i} for i in range(1, 9) if i % 4 in (0, 2)])
+        conn.execute(self.mgr.insert(), [{"id": i, "budget": 100 * i} for i in range(1, 9) if i % 4 == 1])
+        conn.execute(self.machine.insert(), [{"id": k, "eng_id": [2, 4, 6, 8][k % 4], "name": "m%d" % (k % 3), "power": 5 * k} for k in range(1, 13)])
         conn.execute(self.t.insert(), [{"id": i + 1, "x": X_VALUES[i], "y": Y_VALUES[i], "s": S_VALUES[i]} for i in range(12)])
         conn.execute(self.u.insert(), [{"id": a, "tid": b, "v": c} for a, b, c in U_ROWS])
 
@@ -556,6 +617,23 @@ def build_stmt(fx, sp):
         return st, order
 
     k = sp["kind"]
+    if k == "orm_poly":
+        from sqlalchemy import orm
+
+        Employee, Engineer, Manager, Machine = fx.mapped_poly()
+        st = sa.select(Employee).where(Employee.id > sp["minid"]).order_by(Employee.id)
+        o = sp["opt"]
+        if o in ("machines_crit", "both"):
+            st = st.options(orm.selectinload(Engineer.machines.and_(Machine.name == sp["mname"])))
+        if o == "machines_power":
+            st = st.options(orm.selectinload(Engineer.machines.and_(Machine.power > sp["n"])))
+        if o in ("with_expr", "both"):
+            st = st.options(orm.with_expression(Engineer.bonus, Engineer.level + sp["n"]))
+        if o == "explicit_poly":
+            st = st.options(orm.selectin_polymorphic(Employee, [Engineer, Manager]), orm.selectinload(Engineer.machines.and_(Machine.name == sp["mname"])))
+        if o == "explicit_poly_expr":
+            st = st.options(orm.selectin_polymorphic(Employee, [Engineer]), orm.with_expression(Engineer.bonus, Engineer.level * sp["n"]))
+        return st, None
     if k == "orm":
         from sqlalchemy import orm
 
